@@ -111,8 +111,10 @@ func storedBetweenX(from *ssa.BasicBlock, at ssa.Instruction, v ssa.Value, inclu
 }
 
 // clampedBefore recognises
+//
 //	if a < b { a = b }      (a, b memory locations or values; no else branch)
 //	... a - b ...
+//
 // where the subtraction's block is (dominated by) the join of that if.
 func clampedBefore(sub *ssa.BinOp, x, y string) bool {
 	ax := addrKeyOf(sub.X)
